@@ -8,7 +8,7 @@ HOOKS = {
     'source_commits': [],
     'add_only': True,
 }
-ENGINE_TEXT = ('property-based testing: Hypothesis strategies + exhaustive grids sharded over 16 processes, an independent '
+ENGINE_TEXT = ('property-based testing: Hypothesis strategies (incl. stateful machines) + exhaustive grids + mutation fuzzing, one fresh process per shard on 16 cores, an independent '
                'reference evaluator / reference models as oracles, own collect-bucket-shrink driver (vf/run.py), '
                'known-findings attribution (vf/findings.py)')
 NOTES = ('Every check: ./check <ID> quick|thorough, deterministic in VERIF_SEED, imports the working tree of /repo '
@@ -107,6 +107,16 @@ CHECKS = {
         'text': 'Hypothesis workbooks (1-4 sheets, titles and texts from hostile alphabets: quotes, backslashes, newlines, braces, format fields, %, unicode; constants of every type openpyxl writes incl. huge / tiny / infinite numbers, dates, times, durations, error strings, ArrayFormula; valid formulas of the whole supported grammar; in the adversarial lane malformed / unsupported / truncated / token-soup formulas, missing sheets, row-0 and over-long references, cycles) translated whole-file and through every formula cell as entry point; a list of ~130 hand-picked hostile formulas; 17 size-parameterised families (bracket depth 40, nested SUM / IF / mixed calls, operator / sign / & chains, argument counts, forward and backward reference chains across cells, long literals, wide areas).  Outcome must be a library exception or text that compiles, loads, reports the titles and sizes of the workbook, has one callable member per non-blank cell, evaluates without NameError / SyntaxError, gives the stored value for constants and the same outcome through Executor(class_file=...) and Executor(class_object=...); a deterministic work counter (calls into the repository under sys.setprofile) must grow by less than x1.7 per size step',
         'note': 'trusted: python compile / exec, openpyxl as the judge of what a file holds; evaluation errors of a formula are not judged (only NameError / SyntaxError / UnboundLocalError); an alarm that fires is inconclusive - non-termination is represented only by the work-growth bound on the families',
         'technique': 'Hypothesis structured + adversarial workbook fuzzing with outcome classification; size-parameterised families with a deterministic work counter',
+    },
+    'C07': {
+        'text': 'Hypothesis hostile strings (alphabet weighted towards quotes, backslashes, newlines, #, braces, %, call syntax; ~75 payloads that call a canary planted in builtins, incl. triple quotes, escapes, line-start injections), each with a unique marker, placed in constant cells, plain literals (alone, under &, LEFT / MID / IF / CONCATENATE / IFERROR / RIGHT), other argument positions, criteria (plain, operator-prefixed, &-assembled) of COUNTIFS / SUMIF / SUMIFS / AVERAGEIFS, wildcard positions and sheet titles; every payload once in every placement; safety check on and off.  Oracle: the canary is never called at translation, load or evaluation; the returned text parses and every marker occurrence lies inside a string constant of its AST; without steering characters the AST equals (up to constants) the AST for a harmless string of the same length; constants and plain literals evaluate to exactly the original string',
+        'note': 'trusted: python ast spans, the canary in builtins, openpyxl as judge of what the file holds; strings in formula literals carry no double quote / carriage return; what a criterion or pattern selects is C12 / C17',
+        'technique': 'Hypothesis + payload dictionary fuzzing with a side-effect canary, AST audit of the generated module, differential (hostile vs harmless twin) and round-trip oracles',
+    },
+    'C20': {
+        'text': 'names: both classes expose the same helpers with the same parameter lists (and the same EmptyCell members); calls: Hypothesis argument lists for each of the ~55 helpers (numbers, numeric / wildcard / regex-special / date-like texts, dates, blanks, error strings, flat / nested lists, matrices, aligned ranges, criterion callables, failing thunks) applied to a generated class and to class Hand(AbstractExcelInPython) - same value or same exception type; hand: workbooks with formulas of the whole supported grammar whose generated per-cell members are moved into a hand-written subclass of the base - every cell evaluates to the same outcome through Executor on both classes',
+        'note': 'trusted: == after mapping each class\'s EmptyCell to one blank value, exceptions by type name; _today compared within a one-day window',
+        'technique': 'Hypothesis differential testing of the two runtime copies (per helper and end-to-end through generated members) + introspective set comparison',
     },
 }
 ALL = ['C%02d' % i for i in range(1, 21)]
